@@ -61,14 +61,15 @@ def readContinued (s : Bytes) : Option (Bytes × Bytes) :=
 
 def isTokenByte (b : UInt8) : Bool := b.toNat < 127 && C23.isTchar b
 
+/-- one step of the canonicalisation loop: upper-case after the start / a dash, lower-case elsewhere -/
+def canonByte (upper : Bool) (c : UInt8) : UInt8 :=
+  if upper ∧ 97 ≤ c.toNat ∧ c.toNat ≤ 122 then c - 32
+  else if ¬ upper ∧ 65 ≤ c.toNat ∧ c.toNat ≤ 90 then c + 32
+  else c
+
 def canonLoop : Bytes → Bool → Bytes
   | [], _ => []
-  | c :: t, upper =>
-    let c' : UInt8 :=
-      if upper ∧ 97 ≤ c.toNat ∧ c.toNat ≤ 122 then c - 32
-      else if ¬ upper ∧ 65 ≤ c.toNat ∧ c.toNat ≤ 90 then c + 32
-      else c
-    c' :: canonLoop t (c'.toNat = 45)
+  | c :: t, upper => canonByte upper c :: canonLoop t ((canonByte upper c).toNat = 45)
 
 /-- `canonicalMIMEHeaderKey`: unchanged unless every byte is a token byte -/
 def canonKey (a : Bytes) : Bytes := if a.all isTokenByte then canonLoop a true else a
@@ -342,7 +343,9 @@ def rfcLine : Bytes → Except String (Bytes × Bytes)
       | .error e => .error e
       | .ok (l, r) => .ok (b :: l, r)
 
-def asciiLower (s : Bytes) : Bytes := s.map (fun b => if 65 ≤ b.toNat ∧ b.toNat ≤ 90 then b + 32 else b)
+def lowerByte (b : UInt8) : UInt8 := if 65 ≤ b.toNat ∧ b.toNat ≤ 90 then b + 32 else b
+
+def asciiLower (s : Bytes) : Bytes := s.map lowerByte
 
 def isFieldVchar (b : UInt8) : Bool := b.toNat = 9 || (32 ≤ b.toNat && b.toNat ≠ 127)
 
@@ -436,5 +439,63 @@ def rfcRequest (s : Bytes) : Except String (RfcReq × Bytes) :=
                 match rfcFields (r2.length + 1) false r2 with
                 | .error e => .error (if e = "incomplete" then "trailer-incomplete" else "trailer-lenient")
                 | .ok (_, r3) => .ok (⟨m, t, fs.map (·.name), body⟩, r3)
+
+/-! ### the clean sub-language (hypothesis of `C24_same_boundaries_partial`)
+
+  A byte stream is *clean* when its request line and header block are syntactically RFC lines and fields
+  (`rfcLine` / `rfcFields` succeed: CRLF line ends, no bare CR/LF, no obs-fold / leading white-space line, token
+  field names directly followed by the colon, no control bytes in values), the method is a token, the version is
+  `HTTP/1.1`, there is at most one Transfer-Encoding and at most one Content-Length field, their values are plain
+  ASCII (HT, SP..`~`), the Content-Length value is not empty, no transfer-coding is `identity`, and — when a
+  Transfer-Encoding field is present — every chunk-size line of the body is hex digits immediately followed by
+  CRLF and the trailer section is again syntactically RFC fields.  Nothing is assumed about the framing decision
+  itself (values may be `abc`, `gzip`, `+5`, overflowing …), about the target, or about the chunk data. -/
+
+def isPlainByte (b : UInt8) : Bool := b.toNat = 9 || (32 ≤ b.toNat && b.toNat ≤ 126)
+
+/-- walks the chunk-size lines (each must be `1*HEXDIG CRLF` exactly) and returns what follows the last-chunk line -/
+def strictChunks : Nat → Bytes → Option Bytes
+  | 0, _ => none
+  | f + 1, s =>
+    match s.dropWhile C23.isHexDig with
+    | a :: b :: r2 =>
+      if a.toNat = 13 ∧ b.toNat = 10 then
+        if C23.hexNat (s.takeWhile C23.isHexDig) = 0 then some r2
+        else strictChunks f (r2.drop (C23.hexNat (s.takeWhile C23.isHexDig) + 2))
+      else none
+    | _ => none
+
+def sHTTP11 : Bytes := [72, 84, 84, 80, 47, 49, 46, 49]
+
+def noIdentity (v : Bytes) : Bool := (splitComma v).all (fun e => decide (asciiLower (trim e) ≠ sIdentity))
+
+def cleanBody (tes : List Bytes) (r' : Bytes) : Bool :=
+  decide (tes.length = 0) ||
+    match strictChunks (r'.length + 1) r' with
+    | none => false
+    | some r2 =>
+      match rfcFields (r2.length + 1) false r2 with
+      | .ok _ => true
+      | .error _ => false
+
+def cleanFields (fs : List Field) : Bool :=
+  decide ((valuesOf fs lTE).length ≤ 1) && decide ((valuesOf fs lCL).length ≤ 1) &&
+  (valuesOf fs lTE).all (fun v => v.all isPlainByte && noIdentity v) &&
+  (valuesOf fs lCL).all (fun v => v.all isPlainByte && decide (v.length ≠ 0))
+
+def cleanRequest (s : Bytes) : Bool :=
+  match rfcLine s with
+  | .error _ => false
+  | .ok (line, r) =>
+    match splitAt1 32 line with
+    | none => false
+    | some (m, rest1) =>
+      match splitAt1 32 rest1 with
+      | none => false
+      | some (_, p) =>
+        decide (m.length ≠ 0) && m.all C23.isTchar && decide (p = sHTTP11) &&
+        match rfcFields (r.length + 1) true r with
+        | .error _ => false
+        | .ok (fs, r') => cleanFields fs && cleanBody (valuesOf fs lTE) r'
 
 end BfeVerif.C24
